@@ -192,7 +192,7 @@ def run(ctx):
     global _PROGS
     thorough = ctx.tier == "thorough"
     rng = random.Random(ctx.seed * 104729 + 16)
-    n = int(os.environ.get("VERIF_C16_ENTRIES", "2000" if thorough else "260"))
+    n = int(os.environ.get("VERIF_C16_ENTRIES", "2000" if thorough else "220"))
     ents = entries(rng, n)
     progs, fins = {}, {}
     for off in range(0, n, 500):          # one TLC run per 500 entries keeps the output manageable
